@@ -88,6 +88,15 @@ package provider
 //@   loop 1 invariant range: -1 <= $ri && $ri < len(headers)
 //@   loop 1 invariant none-good-so-far: forall j :: 0 <= j && j <= $ri ==> !goodHeader(r, headers, j)
 //@
+//@ ## the construction step hands out the request-time closure over the CONFIGURED path (verbatim, not a re-parsed one), the configured
+//@ ## header list and the flag it was called with
+//@ func provider.issuerFromForwardedOrHost$1
+//@   names fn, err
+//@   property C19
+//@   ensures returns-request-closure-over-configured-path-headers-and-flag: err == nil ==>
+//@             isClosure(fn, "provider.issuerFromForwardedOrHost$1$1", deref(c), deref(path), allowInsecure)
+//@   ensures nothing-on-error: err != nil ==> fn == 0
+//@
 //@ func provider.issuerFromForwardedOrHost$1$1
 //@   property C19
 //@   requires r != nil && deref(c) != nil
